@@ -715,6 +715,12 @@ OPS.update({
     'from_F': ('from_F', 'val', 0, 'q', '(ofF q : {TY})'),
     'nderiv': ('nderiv', 'int', 0, '', '(nderiv {TY})'),
 })
+OPS.update({
+    'sum3': ('sum', 'val', 3, '', '({S}_Sum_sum [a; b; c])'), 'product3': ('product', 'val', 3, '', '({S}_Product_product [a; b; c])'),
+    'sum_r3': ('sum_r', 'val', 3, '', '({S}_Sum_sum_2 [a; b; c])'), 'product_r3': ('product_r', 'val', 3, '', '({S}_Product_product_2 [a; b; c])'),
+    'sum0': ('sum', 'val', 0, '', '({S}_Sum_sum [])'), 'product0': ('product', 'val', 0, '', '({S}_Product_product [])'),
+    'from_i32': ('from_i32', 'optval', 0, 'n', '({S}_FromPrimitive_from_i32 n)'),
+})
 # explicit operator forms (each is its own translated definition)
 for _o in ('add', 'sub', 'mul', 'div'):
     for _f in ('rr', 'rv', 'vr', 'vv'):
